@@ -20,13 +20,18 @@ Streams
             since the check rebuilds the index). Before that evaluation `get_atom_by_name('NAME_n')` is observed for
             NAME x residue: against the model always, against the edited atom list for histories of API edits
             (theorem lookup_after_history). The edited atom list itself is compared with the model of the edits.
-Files are read with read_string, read_file, or by a second read on an object that has parsed a different file before.
+Files are read with read_string, read_file or reload, also on an object that has read one or two different structures
+before (other residues, classes, atoms, restraints): the diagnostics of the last read are compared with its own spec.
+Numerical parameters are written in every spelling of the free format; which tokens are numbers is decided by the
+format (NUM_RE), not by the implementation — a parameter that is reported as an atom is a false warning
+(implementation vs spec only: the split of parameters from atom names is upstream of the Lean model).
 A diverging case is minimised (one restraint, shortest history, plain read form) before it is reported; one report per
 class of divergence.
 The generator's own by-construction expectation (which pair was left out) is asserted against the spec as well
 (a disagreement there is a harness error, exit 2).
 """
 import contextlib
+from decimal import Decimal
 import io
 import re
 import tempfile
@@ -39,7 +44,7 @@ from .. import core, gen
 KEYWORDS = {
     'SADI': ['', '0.03'], 'DFIX': ['1.54', '1.54 0.01'], 'DANG': ['2.5', '2.5 0.05'], 'SAME': ['', '0.03 0.05'],
     'SIMU': ['', '0.05 0.09 1.9'], 'DELU': ['', '0.02 0.03'], 'RIGU': ['', '0.005'], 'ISOR': ['', '0.11 0.21'],
-    'FLAT': ['', '0.2'], 'CHIV': ['', '2.5 0.2'], 'EADP': [''], 'EXYZ': [''], 'NCSY': ['1', '2 0.2 0.06'],
+    'FLAT': ['', '0.2'], 'CHIV': ['', '2.5 0.2', '-2.5 0.1'], 'EADP': [''], 'EXYZ': [''], 'NCSY': ['1', '2 0.2 0.06'],
 }
 
 
@@ -57,7 +62,38 @@ def restraint_keywords():
 NAMES = ['C1', 'N2', 'O3A', 'C14B', 'N5']      # atom names in use (<= 4 characters); one per token of a restraint
 CLASSES = ['CCF3', 'TOL', 'B2']               # a class starts with a letter and may contain digits
 NUMBERS = [1, 2, 3, 4, 7, 11, 23, 105]         # residue numbers in use
-ELEMENT_SFAC = {'C': 1, 'N': 2, 'O': 3}
+ELEMENT_SFAC = {'C': 1, 'N': 2, 'O': 3, 'I': 1}      # the scattering factor number is not tied to the name
+
+
+def respell_number(rng, tok):
+    """the same value in another spelling that the free format accepts: sign, leading/trailing point, zero padding,
+    exponent with e or E (signed, padded), mantissa with or without point"""
+    d = Decimal(tok)
+    neg = d < 0
+    a = -d if neg else d
+    plain = format(a, 'f')
+    forms = [plain, plain + '0' if '.' in plain else plain + '.', '0' + plain]
+    if '.' not in plain:
+        forms += [plain + '.', plain + '.0']
+    if plain.startswith('0.'):
+        forms.append(plain[1:])                       # .03
+    for k in (-3, -2, -1, 0, 1, 2):
+        m = format(a.scaleb(-k), 'f')
+        if '.' in m:
+            m = m.rstrip('0')                         # 3. / 30.
+        for e in ('e', 'E'):
+            forms.append(f'{m}{e}{k}')
+            forms.append(f'{m}{e}{k:+03d}')
+            if m.startswith('0.') and len(m) > 2:
+                forms.append(f'{m[1:]}{e}{k:+d}')
+    f = rng.choice(forms)
+    if neg:
+        return '-' + f
+    return rng.choice(['', '', '+']) + f
+
+
+def respell(rng, params):
+    return ' '.join(respell_number(rng, t) for t in params.split())
 
 
 def swapcase(s, how):
@@ -111,12 +147,13 @@ def structure(case):
     return atoms, resis
 
 
+# a numerical parameter in SHELXL's free format: optional sign, digits with an optional point (also '.5' and '2.'),
+# optional exponent with e or E. Written from the format, not taken from the implementation (float()).
+NUM_RE = re.compile(r'^[+-]?(\d+\.?\d*|\.\d+)([eE][+-]?\d+)?$')
+
+
 def is_number(tok):
-    try:
-        float(tok)
-    except ValueError:
-        return False
-    return True
+    return bool(NUM_RE.match(tok))
 
 
 def split_restraint(line):
@@ -138,25 +175,41 @@ def parse_report(name):
 MARK = 'Atom list has no -->'
 
 
-def read_case(case):
-    """read the rendered file in the form the case asks for: read_string, read_file, or a second read on an object that
-    has already parsed a different file"""
+def read_case(case, tmp=None):
+    """read the rendered file in the form the case asks for — read_string, read_file, reload — on an object that may
+    have read other structures before (`prior`: different residues, classes, atoms, restraints)"""
     from shelxfile import Shelxfile
     shx = Shelxfile()
-    text = render(case)
     how = case.get('read', 'string')
+    prior = list(case.get('prior') or [])
     if how == 'twice':
         # same structure with every second atom left out and a restraint on an atom that does not exist
-        other = dict(case, blocks=[[b[0], b[1], b[2][::2], b[3]] for b in case['blocks']], restraints=['SADI C77 N88'] + list(case['restraints']))
-        shx.read_string(render(other))
-        shx.read_string(text)
-    elif how == 'file':
-        with tempfile.TemporaryDirectory() as tmp:
-            f = Path(tmp) / 'c17.res'
-            f.write_text(text)
-            shx.read_file(str(f))
-    else:
-        shx.read_string(text)
+        prior.append(dict(case, blocks=[[b[0], b[1], b[2][::2], b[3]] for b in case['blocks']],
+                          restraints=['SADI C77 N88'] + list(case['restraints']), read='string', prior=None))
+        how = 'string'
+    needs_file = how in ('file', 'reload') or any(p.get('read') == 'file' for p in prior)
+    ctxm = tempfile.TemporaryDirectory() if needs_file else contextlib.nullcontext()
+    with ctxm as tmp:
+        path = Path(tmp) / 'c17.res' if needs_file else None
+        for p in prior:
+            if p.get('read') == 'file':
+                path.write_text(render(p))
+                shx.read_file(str(path))
+            else:
+                shx.read_string(render(p))
+        text = render(case)
+        if how == 'file':
+            path.write_text(text)
+            shx.read_file(str(path))
+        elif how == 'reload':
+            # the file the object was read from has changed on disk
+            if not prior or prior[-1].get('read') != 'file':
+                path.write_text(render(prior[-1]) if prior else text)
+                shx.read_file(str(path))
+            path.write_text(text)
+            shx.reload()
+        else:
+            shx.read_string(text)
     return shx
 
 
@@ -263,6 +316,8 @@ def signature(kmode, toks, pairs, direction, stream):
     """site of the divergence: the kind of the token the first differing (NAME, residue) pair belongs to; for a bare
     token the keyword suffix decides, so it is part of the site"""
     site = 'tok=?'
+    if any(is_number(nm) for nm, _ in pairs):
+        return f'C17|{stream}|param=number|{direction}'
     for nm, _ in sorted(pairs):
         t = next((t for t in toks if t.upper().split('_')[0] == nm and not t.startswith('$')), None)
         if t is not None:
@@ -351,6 +406,18 @@ def minimise(ctx, case, want_prop):
                 case = c
                 changed = True
                 break
+    # earlier reads on the same object: drop them one by one, then fall back to the plain read form
+    prior = list(case.get('prior') or [])
+    i = 0
+    while i < len(prior):
+        trial = prior[:i] + prior[i + 1:]
+        c = dict(case, prior=trial)
+        if still(c):
+            prior, case = trial, c
+        else:
+            i += 1
+    if not prior:
+        case = {k: v for k, v in case.items() if k != 'prior'}
     if case.get('read', 'string') != 'string':
         c = dict(case, read='string')
         if still(c):
@@ -402,12 +469,14 @@ def evaluate(ctx, cases, stream=None):
         anymissing = j['anymissing']
         addressed_other = any(a is not None and a != [0] for r in rs for a in r['spec']['addressed'])
         edits = [op[0] for op in (case.get('ops') or []) if op[0] not in ('check', 'touch')]
-        ctx.count(['c', case['blocks'], case['restraints'], case.get('eqiv'), case.get('where'), case.get('ops'), case.get('read')],
+        ctx.count(['c', case['blocks'], case['restraints'], case.get('eqiv'), case.get('where'), case.get('ops'), case.get('read'),
+                   [[p['blocks'], p['restraints'], p.get('read')] for p in case.get('prior') or []]],
                   nontrivial=(addressed_other or anymissing) and (not hist or bool(edits)),
                   sample=dict(restraints=case['restraints'], blocks=[[b[0], b[1], b[2]] for b in case['blocks']], ops=case.get('ops'),
                               impl=obs['raw'][:4], spec=j['spec_lists']) if (addressed_other and anymissing) else None,
                   tags=tags + ['missing' if anymissing else 'all-exist', f'nres={len([b for b in case["blocks"] if b[1] > 0])}',
-                               f'nrestr={len(case["restraints"])}', 'read=' + case.get('read', 'string')]
+                               f'nrestr={len(case["restraints"])}', 'read=' + case.get('read', 'string'), f'prior-reads={len(case.get("prior") or [])}']
+                  + (['number-respelled'] if any(re.search(r'[eE+]|^\.|\.$|^0\d', t) for line in case['restraints'] for t in line.split()[1:] if is_number(t)) else [])
                   + ['kwd=' + line.split()[0].split('_')[0].upper() for line in case['restraints']]
                   + (['history'] + ['op=' + e for e in edits] if hist else []))
         if not (j['bad_prop'] or j['bad_model']):
@@ -460,6 +529,9 @@ def evaluate(ctx, cases, stream=None):
             hsig = 'history|' + (redits[-1] if redits else 'evaluate') + '|'
         if minimised and rcase.get('read', 'string') != 'string':
             hsig += f'read={rcase["read"]}|'        # the read form is part of the site only if the plain form does not diverge
+        if minimised and rcase.get('prior'):
+            hsig += 'after-' + '+'.join('read_' + p.get('read', 'string') for p in rcase['prior']) + '|'
+            where += f'; the object had read before: {[(p["restraints"], [(b[0], b[1]) for b in p["blocks"] if b[1]]) for p in rcase["prior"]]}'
         if want_prop:
             if flat_got - flat_spec:
                 direction, diff = 'false-warning', flat_got - flat_spec
@@ -532,9 +604,15 @@ def build_case(rng, kwname, kwmode, tokmodes, resis, fill, absent, casing, param
         if kind == '$E':
             toks.append('$' + val)
             continue
-        nm = names[ni % len(names)]
-        ni += 1
-        w = swapcase(nm, casing.get('names_restr'))
+        if kind == 'name':
+            # a fixed name that Python's float() would take for a number (NAN, INF): an atom name all the same
+            nm, kind, val = val.upper(), 'bare', None
+            w = swapcase(nm, casing.get('names_restr'))
+            names = names + [nm] if nm not in names else names
+        else:
+            nm = names[ni % len(NAMES)]
+            ni += 1
+            w = swapcase(nm, casing.get('names_restr'))
         if kind == 'sym':
             toks.append(f'{w}_${val}')
             continue
@@ -578,6 +656,8 @@ def build_case(rng, kwname, kwmode, tokmodes, resis, fill, absent, casing, param
         for nm in names:
             seen.add((nm, n))
         blocks.append([swapcase(cls, casing.get('cls_resi')), n, nm_here, 'implicit' if n == 0 else form])
+    if params and rng.random() < 0.6:
+        params = respell(rng, params)
     line = ' '.join(x for x in [kw, params] + toks if x)
     return dict(blocks=blocks, restraints=[line], eqiv=eqiv, where=where, expect=[[list(p) for p in expect]])
 
@@ -625,6 +705,8 @@ TOKEN_PATTERNS = [
     [('bare', None), ('sym', 1)],
     [('sym', 2), ('num', 'R'), ('sym', 1)],
     [('num', 'X'), ('star', None)],
+    [('name', 'NAN'), ('bare', None)],
+    [('bare', None), ('name', 'inf'), ('num', 'R'), ('name', 'Nan')],
     [('bare', None), ('bare', None), ('num', 'R'), ('star', None), ('range', '>'), ('$E', 'O'), ('sym', 1)],
 ]
 
@@ -774,6 +856,22 @@ def history_case(rng):
     return case
 
 
+def read_history_case(rng):
+    """one Shelxfile object reads 1..2 other structures first (other residues, classes, atoms, restraints; read_string or
+    read_file), then the structure of the case through read_string, read_file or reload (file changed on disk); the
+    diagnostics of the last read are compared with the spec of the last structure"""
+    case = random_case(rng)
+    prior = []
+    for _ in range(rng.choice([1, 1, 2])):
+        p = random_case(rng)
+        p.pop('expect', None)
+        p['read'] = rng.choice(['string', 'file'])
+        prior.append(p)
+    case['prior'] = prior
+    case['read'] = rng.choice(['string', 'file', 'reload'])
+    return case
+
+
 # the inputs of the Lean witnesses (legacy_stale_index_misses_moved_atom, opsA), run on the implementation in every run
 _BLOCKS_A = [['', 0, ['C1', 'c2'], 'implicit'], ['ccf3', 1, ['C1', 'c2'], 'class-first'], ['ccf3', 2, ['C1'], 'class-first'],
              ['', 7, ['C1', 'C3'], 'class-first']]
@@ -789,7 +887,7 @@ def run(ctx):
     ctx.rule = ('generated files: residue 0 plus 0..5 RESI blocks of 1..3 classes (one may be the empty class), atoms C1 N2 O3A C14B N5; '
                 '1..3 restraints of 13 keywords x keyword suffix (none, _0, _n existing, _n not existing, _CLASS known/unknown, _*) x '
                 'token patterns (bare, _n, _0, _*, $E, <, >, _$n); every addressed atom present or exactly one absent; case variants of '
-                'names, classes and keywords; read through read_string / read_file / a second read on a used object; histories of 1..6 '
+                'names, classes and keywords; numerical parameters in every spelling of the free format (sign, .5, 2., zero padding, e/E exponents); atom names NAN / INF; read through read_string / read_file / reload, also on an object that has read 1..2 other structures before; histories of 1..6 '
                 'steps (evaluate, look-up, del atoms[id], Atom.delete, rename, add_atom, atom.resi = ...) followed by a new evaluation; '
                 'distinct by (blocks, restraint lines, history, read form); non-trivial = some token addresses residues other '
                 'than [0] or an atom is missing, and for histories at least one edit')
@@ -829,5 +927,7 @@ def run(ctx):
         cases.append(c)
     for _ in range([1500, 8000, 40000][level]):
         cases.append(history_case(ctx.rng))
+    for _ in range([600, 3000, 20000][level]):
+        cases.append(read_history_case(ctx.rng))
     for i in range(0, len(cases), 2000):
         evaluate(ctx, cases[i:i + 2000])
